@@ -1,4 +1,5 @@
 import Cppcheck.Model.Wire
+import Cppcheck.Model.Shell
 /-
 C32 — model of `ImportProject::parseArgs` (lib/importproject.cpp:112) with its `getOptArg` lambda,
 of `ImportProject::fsSetDefines` (lib/importproject.cpp:212), and the hand-written specification of
@@ -138,31 +139,32 @@ def eraseDoubleSemi : Nat → Str → Str
     | none => s
     | some p => eraseDoubleSemi fuel (s.take p ++ s.drop (p + 1))
 
-/-- strip trailing ';' -/
-def stripTrailingSemi (s : Str) : Str := (s.reverse.dropWhile (· == ';')).reverse
+/-- `while (!defs.empty() && endsWith(defs,';')) defs.pop_back();` -/
+def stripTrailingSemi : Str → Str
+  | [] => []
+  | c :: r =>
+    let t := stripTrailingSemi r
+    if t.isEmpty && c == ';' then [] else c :: t
 
 /-- the `for (pos …)` loop that appends "=1" to value-less definitions, as a scan over the remaining
     characters.  `eq` is the flag of the code.  After an insertion the code sets `pos += 3` and the
-    loop header adds one more, so the character right behind the ';' is *not examined*. -/
-def addOnes : Str → Bool → Str
-  | [], eq => if eq then [] else ['=', '1']
-  | c :: r, eq =>
-    if c = '(' ∨ c = '=' then c :: addOnes r true
+    loop header adds one more, so the character right behind the ';' is *not examined*: `skip`. -/
+def addOnes : Str → (eq skip : Bool) → Str
+  | [], eq, _ => if eq then [] else ['=', '1']
+  | c :: r, eq, true => c :: addOnes r eq false
+  | c :: r, eq, false =>
+    if c = '(' ∨ c = '=' then c :: addOnes r true false
     else if c = ';' then
-      if eq then ';' :: addOnes r false
-      else
-        '=' :: '1' :: ';' ::
-          (match r with
-           | [] => addOnes [] false
-           | d :: r' => d :: addOnes r' false)
-    else c :: addOnes r eq
+      if eq then ';' :: addOnes r false false
+      else '=' :: '1' :: ';' :: addOnes r false true
+    else c :: addOnes r eq false
 
 def fsSetDefines (defs : Str) : Str :=
   let s1 := eraseMsbuild defs.length defs
   let s2 := eraseDoubleSemi s1.length s1
   let s3 := s2.dropWhile (· == ';')
   let s4 := stripTrailingSemi s3
-  if s4.isEmpty then [] else addOnes s4 false
+  if s4.isEmpty then [] else addOnes s4 false false
 
 /-- `ImportProject::parseArgs` on a fresh `FileSettings`; `none` = out-of-bounds read -/
 def parseArgs (args : List Str) : Option FS :=
@@ -277,6 +279,178 @@ def joinDefs : List Str → Str
   | [] => []
   | d :: r => d ++ ';' :: joinDefs r
 
+
+/-! ### `importCompileCommands` around `parseArgs` (lib/importproject.cpp:361): directory / file handling,
+    `fsSetIncludePaths`, `simplecpp::simplifyPath`, `Path::acceptFile`.  Executable model only (validated by
+    correspondence); `$(VAR)` expansion is modelled for an environment in which the variable is unset. -/
+namespace Import
+
+/-- `s.find(pat, start)` -/
+def findSubFrom (pat s : Str) (start : Nat) : Option Nat :=
+  if start > s.length then none else (findSub pat (s.drop start)).map (· + start)
+
+/-- `s.erase(pos, n)` -/
+def eraseAt (s : Str) (pos n : Nat) : Str := s.take pos ++ s.drop (pos + n)
+
+/-- `s.rfind(ch, from)` : last index `≤ from` holding `ch` -/
+def rfindChar (ch : Char) (s : Str) (start : Nat) : Option Nat :=
+  let pre := s.take (start + 1)
+  match pre.reverse.idxOf? ch with
+  | none => none
+  | some k => some (pre.length - 1 - k)
+
+def fromNative (s : Str) : Str := s.map fun c => if c = '\\' then '/' else c
+
+def endsWithChar (s : Str) (c : Char) : Bool := s.getLast? == some c
+
+/-- `pos = 0; while ((pos = path.find("//",pos)) != npos) path.erase(pos,1);` -/
+def collapseSlashes : Nat → Str → Nat → Str
+  | 0, s, _ => s
+  | f + 1, s, pos =>
+    match findSubFrom "//".toList s pos with
+    | none => s
+    | some p => collapseSlashes f (eraseAt s p 1) p
+
+/-- `while ((pos = path.find("./",pos)) != npos) { if (pos == 0 || path[pos-1] == '/') path.erase(pos,2); else pos += 2; }` -/
+def removeDotSlash : Nat → Str → Nat → Str
+  | 0, s, _ => s
+  | f + 1, s, pos =>
+    match findSubFrom "./".toList s pos with
+    | none => s
+    | some p =>
+      if p = 0 ∨ s[p - 1]? = some '/' then removeDotSlash f (eraseAt s p 2) p
+      else removeDotSlash f s (p + 2)
+
+/-- the `..` loop of `simplecpp::simplifyPath` -/
+def dotdot : Nat → Str → Nat → Str
+  | 0, s, _ => s
+  | f + 1, s, pos =>
+    match findSubFrom "/..".toList s pos with
+    | none => s
+    | some p =>
+      if p + 3 < s.length ∧ s[p + 3]? ≠ some '/' then dotdot f s (p + 1)
+      else
+        let pos1 := match rfindChar '/' s (p - 1) with
+          | none => 0
+          | some q => q + 1
+        let prev := (s.drop pos1).take (p - pos1)
+        if prev = "..".toList then dotdot f s (p + 1)
+        else
+          let s' := eraseAt s pos1 (p - pos1 + 4)
+          let s'' := if s'.isEmpty then ['.'] else s'
+          dotdot f s'' (if pos1 = 0 then 1 else pos1 - 1)
+
+/-- `simplecpp::simplifyPath` -/
+def simplifyPath (path : Str) : Str :=
+  if path.isEmpty then path else
+  let p0 := fromNative path
+  let unc := "//".toList.isPrefixOf p0
+  let p1 := collapseSlashes (p0.length + 1) p0 0
+  let p2 := removeDotSlash (p1.length + 1) p1 0
+  let p3 := if "/.".toList.isSuffixOf p2 then p2.dropLast else p2
+  let p4 := dotdot (2 * p3.length + 2) p3 1
+  if unc then '/' :: p4 else p4
+
+/-- ASCII `tolower` -/
+def lowerChar (c : Char) : Char := if 'A' ≤ c ∧ c ≤ 'Z' then Char.ofNat (c.toNat + 32) else c
+
+/-- `Path::getFilenameExtension`: from the last '.' to the end -/
+def extension (path : Str) : Str :=
+  match path.reverse.idxOf? '.' with
+  | none => []
+  | some k => path.drop (path.length - 1 - k)
+
+/-- `Path::acceptFile(path)` with no extra extensions (Linux: case-sensitive file system) -/
+def acceptFile (path : Str) : Bool :=
+  let e := extension path
+  if e = ".C".toList then true
+  else if e = ".c".toList ∨ e = ".cl".toList then true
+  else
+    let l := e.map lowerChar
+    [".cpp", ".cxx", ".cc", ".c++", ".tpp", ".txx", ".ipp", ".ixx"].any fun x => x.toList = l
+
+/-- the absolute-path test of `fsSetIncludePaths` -/
+def incIsAbsolute (s : Str) : Bool :=
+  s.head? == some '/' || (s.length > 1 && (s.drop 1).take 2 == ":/".toList)
+
+/-- `fsSetIncludePaths(fs, basepath, in, variables)` with no variable defined anywhere -/
+def fsSetIncludePaths (basepath : Str) : List Str → List Str → List Str → List Str
+  | [], _, out => out
+  | ipath :: r, found, out =>
+    if ipath.isEmpty then fsSetIncludePaths basepath r found out
+    else if "%(".toList.isPrefixOf ipath then fsSetIncludePaths basepath r found out
+    else
+      let s := fromNative ipath
+      if found.contains s then fsSetIncludePaths basepath r found out
+      else
+        let found := s :: found
+        if incIsAbsolute s then
+          fsSetIncludePaths basepath r found (out ++ [if endsWithChar s '/' then s else s ++ ['/']])
+        else
+          let s1 := if endsWithChar s '/' then s.dropLast else s
+          if (findSub "$(".toList s1).isSome then
+            -- simplifyPathWithVariables: the variable is found neither in `variables` nor in the environment
+            fsSetIncludePaths basepath r found out
+          else
+            let s2 := simplifyPath (basepath ++ s1)
+            if s2.isEmpty then fsSetIncludePaths basepath r found out
+            else fsSetIncludePaths basepath r found (out ++ [if endsWithChar s2 '/' then s2 else s2 ++ ['/']])
+
+/-- "arguments" array (string elements only) or "command" string -/
+inductive ArgsForm where
+  | arguments (l : List Str)
+  | command (c : Str)
+  | neither
+
+structure Entry where
+  dir : Str
+  file : Option Str
+  args : ArgsForm
+
+structure FileSetting where
+  path : Str
+  fileId : Nat
+  fs : FS
+
+structure Result where
+  ok : Bool
+  errors : Nat
+  /-- an entry made `parseArgs` read out of bounds -/
+  oob : Bool
+  files : List FileSetting
+
+/-- the loop over the entries of the database -/
+def importEntries : List Entry → Nat → List FileSetting → Result
+  | [], errs, acc => ⟨true, errs, false, acc⟩
+  | e :: rest, errs, acc =>
+    let d0 := fromNative e.dir
+    let directory := if endsWithChar d0 '/' then d0 else d0 ++ ['/']
+    let argsRes : Option (List Str) :=
+      match e.args with
+      | .arguments l => some l
+      | .command c =>
+        match Shell.collectArgs c with
+        | .ok l => some l
+        | .missingQuote => none
+      | .neither => none
+    match argsRes with
+    | none => ⟨false, errs + 1, false, acc⟩
+    | some arguments =>
+      match e.file with
+      | none => importEntries rest (errs + 1) acc
+      | some f =>
+        let file := fromNative f
+        if !acceptFile file then importEntries rest errs acc
+        else
+          let path := if file.head? == some '/' then simplifyPath file else simplifyPath (directory ++ file)
+          match parseArgs arguments with
+          | none => ⟨true, errs, true, acc⟩
+          | some fs =>
+            let fs' := { fs with includePaths := fsSetIncludePaths directory fs.includePaths [] [] }
+            let fileId := (acc.filter fun x => x.path = path).length
+            importEntries rest errs (acc ++ [⟨path, fileId, fs'⟩])
+
+end Import
 
 /-! ### the inputs on which `parseArgs` and the specification are claimed to agree -/
 
